@@ -67,6 +67,11 @@ func (root *Root) ResolveExecutable(
 	// Returned error can be either an array of errors as a Errors, an Error,
 	// or just a plain fmt.Errorf() return.
 
+	if root.schema == nil {
+		// Nothing has been loaded into the root yet so there is nothing any
+		// operation could be resolved against.
+		return nil, fmt.Errorf("%w, no schema has been loaded", ErrResolve)
+	}
 	op := exe.Ops[opName]
 	if op == nil {
 		if len(exe.Ops) == 1 && len(opName) == 0 {
